@@ -44,14 +44,14 @@ def gen_case(seed: int, tier: str, index: int) -> Dict[str, Any]:
     if kind == "system":
         # spa-side device flips that make the facade switch mode
         for _ in range(rng.randint(2, 10)):
-            plan.append({"op": "flip", "t": round(rng.uniform(1.0, dur), 3), "dev": rng.randrange(6), "on": rng.random() < 0.5})
+            plan.append({"op": "flip", "t": round(rng.uniform(1.0, dur), 3), "dev": rng.randrange(6), "on": rng.random() < 0.5, "form": rng.randrange(3)})
         # reconnect cycles: the timing table is process-wide and outlives a facade, so a device that changes while the client is
         # away must still be reflected once the new facade is ready
         for _ in range(rng.choice([0, 1, 1, 2])):
             t0 = round(rng.uniform(2.0, dur - 8), 3)
             plan.append({"op": "reset", "t": t0})
-            plan.append({"op": "flip", "t": round(t0 + rng.choice([0.05, 0.5, 1.5]), 3), "dev": rng.randrange(6), "on": rng.random() < 0.3})
-            plan.append({"op": "flip", "t": round(t0 + rng.choice([0.1, 0.8, 2.0]), 3), "dev": rng.randrange(6), "on": False})
+            plan.append({"op": "flip", "t": round(t0 + rng.choice([0.05, 0.5, 1.5]), 3), "dev": rng.randrange(6), "on": rng.random() < 0.3, "form": rng.randrange(3)})
+            plan.append({"op": "flip", "t": round(t0 + rng.choice([0.1, 0.8, 2.0]), 3), "dev": rng.randrange(6), "on": False, "form": rng.randrange(3)})
     plan.sort(key=lambda o: (o["t"], o["op"] != "switch"))
     snaps = [s for s in snapshot_files()]
     cfg = {"kind": kind, "net": {"lat_min": 0.001, "lat_max": 0.004}, "loop": loop_cfg, "tables": tables, "duration": dur,
@@ -210,7 +210,21 @@ async def scenario(world: WorldA) -> None:
             else:
                 on_vals = [i for i in a.items if i not in ("OFF", "")]
                 val = (on_vals[0] if on_vals else "OFF") if op["on"] else "OFF"
-            model.do_set(f"{key}={val}")
+            form = op.get("form", 0)
+            if form == 0:
+                model.do_set(f"{key}={val}")          # the simulator's own report: one byte at the item's address
+            else:
+                # a real spa reports a change as a position + word record: the word that starts at the state byte, or the one that
+                # starts on the byte before it
+                before = model.structure.status_block
+                a.value = val                           # (no report: _send_structure_change is off)
+                after = model.structure.status_block
+                changed = [i for i in range(1024) if before[i] != after[i]]
+                if changed:
+                    p0 = changed[0] if form == 1 else changed[0] - 1
+                    p0 = max(0, min(1022, p0))
+                    model.emit_statp([(p0, after[p0:p0 + 2])])
+                    res.probe("flip_reported_as_word_at_item" if form == 1 else "flip_reported_as_word_before_item")
             sysm.peer.kick()
             res.fault("spa_device_flip")
         except Exception:
@@ -318,7 +332,7 @@ ASSUMPTIONS = [
     "'at once' = every moment between the switch and the wake is attributable to simulator-injected callback cost (+2 ms)",
     "only upper bounds are checked: the statement does not forbid an early wake",
 ]
-PROBES = ["facade_ready_after_reconnect", "facade_wants_active", "facade_wants_idle", "sleeper_interrupted_by_switch", "sleeper_ran_full_time", "switch_in_same_instant_as_sleep_start", "both_modes_requested", "ten_or_more_sleeps"]
+PROBES = ["flip_reported_as_word_at_item", "flip_reported_as_word_before_item", "facade_ready_after_reconnect", "facade_wants_active", "facade_wants_idle", "sleeper_interrupted_by_switch", "sleeper_ran_full_time", "switch_in_same_instant_as_sleep_start", "both_modes_requested", "ten_or_more_sleeps"]
 N_QUICK = 4000
 
 
